@@ -31,6 +31,9 @@ def gen(seed, extra):
         if pool and rng.random() < 0.6:
             ren[p] = pool.pop()
     spec["input_params"] = [ren.get(p, p) for p in spec["input_params"]]
+    if rng.random() < 0.4:
+        # long parameter lists (any length 5..14): the one-line sections must not lose entries when they get long
+        spec["input_params"] += [f"w{i}" for i in range(rng.randint(4, 11))]
     spec["local_variables"] = [(v, rn_tree(t)) for v, t in spec["local_variables"]]
     spec["linked_params"] = [(ren.get(s, s), ts) for s, ts in spec["linked_params"]]
     for p in spec["ports"]:
